@@ -3,7 +3,7 @@
 Require Extraction.
 Require Import ExtrOcamlBasic ExtrOcamlZBigInt.
 From Coq Require Import ZArith QArith String.
-From GMGP Require Import Scalar GridDefs TridiagDefs SparseLUDefs ObjectsDefs.
+From GMGP Require Import Scalar GridDefs TridiagDefs SparseLUDefs ObjectsDefs InterpDefs.
 From GMGPGen Require Import GridIndexGen SpecialMembersGen.
 
 Extraction Language OCaml.
@@ -31,6 +31,13 @@ Definition q_pivots := @pivots Qsc.
 Definition q_csr_of_triplets := @csr_of_triplets Qsc.
 Definition q_csr_of_arrays := @csr_of_arrays Qsc.
 
+Definition q_P_row := @P_row Qsc.
+Definition q_R_row := @R_row Qsc.
+Definition q_Pex_row := @Pex_row Qsc.
+Definition q_Rex_row := @Rex_row Qsc.
+Definition q_Inj_row := @Inj_row Qsc.
+Definition q_FMG_row := @FMG_row Qsc.
+
 Extraction "model"
   Qsc Qltb Qred Qplus Qminus Qmult Qdiv Qopp Qle_bool Qeq_bool
   Z.add Z.sub Z.mul Z.opp Z.pow Z.ltb Z.eqb Z.of_nat Z.to_nat Pos.add Pos.mul
@@ -42,4 +49,5 @@ Extraction "model"
   inv_SymmetricTridiagonalSolver gen_SymmetricTridiagonalSolver_copy_ctor
   gen_SymmetricTridiagonalSolver_copy_assign gen_SymmetricTridiagonalSolver_move_ctor
   gen_SymmetricTridiagonalSolver_move_assign
-  q_lu_factor q_lu_solve q_csr_apply q_pivots q_csr_of_triplets q_csr_of_arrays.
+  q_lu_factor q_lu_solve q_csr_apply q_pivots q_csr_of_triplets q_csr_of_arrays
+  q_P_row q_R_row q_Pex_row q_Rex_row q_Inj_row q_FMG_row wrap1.
